@@ -3,5 +3,6 @@ CONSTANTS
   MaxFrags = 2
   MaxNodes = 8
   FieldPool = {}
+  Extended = {}
 INVARIANTS Lemma Emit
 CHECK_DEADLOCK FALSE
